@@ -32,7 +32,8 @@ impl Transport {
 		let loop_region = loop_region.filter(|(loop_start, loop_end)| loop_end > loop_start);
 		Self {
 			position: if reverse {
-				num_frames - 1 - start_position
+				// (a start position beyond the audio, or an empty sound, ends up at frame 0)
+				num_frames.saturating_sub(1).saturating_sub(start_position)
 			} else {
 				start_position
 			},
